@@ -177,7 +177,13 @@ func (r *RectBounder) AddPoint(b Point) {
 		// be spent getting from A to B; the remainder bounds the round-trip
 		// distance (in latitude) from A or B to the min or max latitude
 		// attained along the edge AB.
-		latBudget := 2 * math.Asin(0.5*(r.a.Sub(b.Vector)).Norm()*math.Sin(maxLat))
+		//
+		// The argument of Asin is computed with a relative error of a few
+		// dblEpsilon; near 1 (nearly antipodal A and B on a great circle
+		// through a pole) Asin amplifies that error to about 1e-8, and a value
+		// rounded above 1 would give NaN. It is therefore rounded up by
+		// 4 * dblEpsilon and clamped to 1, which can only enlarge the budget.
+		latBudget := 2 * math.Asin(math.Min(1, (1+4*dblEpsilon)*0.5*(r.a.Sub(b.Vector)).Norm()*math.Sin(maxLat)))
 		maxDelta := 0.5*(latBudget-latAB.Length()) + dblEpsilon
 
 		// Test whether AB passes through the point of maximum latitude or
